@@ -53,6 +53,7 @@ type History struct {
 	Wire  []Pkt  `json:"wire"`
 	Omits []Pkt  `json:"omits"` // informational: segments the capture missed
 	Swaps []int  `json:"swaps"` // informational: wire index of adjacent swaps
+	Split int    `json:"split"` // pcapng only: the first Split packets form a section of their own (0: one section)
 }
 type ObsSide struct {
 	Side    int   `json:"side"`
@@ -76,6 +77,7 @@ type Event struct {
 	WSeed int64  `json:"wseed"`
 	Big   bool   `json:"big"`
 	Many  bool   `json:"many"`
+	Split int    `json:"split"`
 	Conns []Conn `json:"conns"`
 	Wire  []Pkt  `json:"wire"`
 	Omits []Pkt  `json:"omits"`
@@ -295,7 +297,7 @@ func linkFrame(kind string, bo binary.ByteOrder, ip []byte) []byte {
 	return nil
 }
 
-func captureFile(format, link string, frames [][]byte, decoy int) []byte {
+func captureFile(format, link string, frames [][]byte, decoy int, split int) []byte {
 	b := &bytes.Buffer{}
 	var bo binary.ByteOrder = binary.LittleEndian
 	if format == "pcap_be" || format == "pcap_be_ns" || format == "pcapng_be" {
@@ -321,28 +323,48 @@ func captureFile(format, link string, frames [][]byte, decoy int) []byte {
 			b.Write(f)
 		}
 	case "pcapng_le", "pcapng_be":
-		w(uint32(0x0a0d0d0a), uint32(28), uint32(0x1a2b3c4d), uint16(1), uint16(0), int64(-1), uint32(28))
-		// decoy 1/2: a second interface of another link type before/after the one the packets belong to
-		other := uint16(1)
-		if lt == 1 {
-			other = 113
+		// one section, or two when split > 0: each with its own section header, interface description(s) and packets; a section that
+		// is followed by another one carries its length (with -1 a reader takes the rest of the file for this section)
+		section := func(fr [][]byte, first int, explicit bool) {
+			body := &bytes.Buffer{}
+			wb := func(vs ...any) {
+				for _, v := range vs {
+					_ = binary.Write(body, bo, v)
+				}
+			}
+			other := uint16(1)
+			if lt == 1 {
+				other = 113
+			}
+			ifid := uint32(0)
+			if decoy == 1 {
+				wb(uint32(1), uint32(20), other, uint16(0), uint32(262144), uint32(20))
+				ifid = 1
+			}
+			wb(uint32(1), uint32(20), uint16(lt), uint16(0), uint32(262144), uint32(20))
+			if decoy == 2 {
+				wb(uint32(1), uint32(20), other, uint16(0), uint32(262144), uint32(20))
+			}
+			for i, f := range fr {
+				pad := (4 - len(f)%4) % 4
+				tl := uint32(32 + len(f) + pad)
+				wb(uint32(6), tl, ifid, uint32(0x0005f000), uint32((first+i)*1000), uint32(len(f)), uint32(len(f)))
+				body.Write(f)
+				body.Write(make([]byte, pad))
+				wb(tl)
+			}
+			sl := int64(-1)
+			if explicit {
+				sl = int64(body.Len())
+			}
+			w(uint32(0x0a0d0d0a), uint32(28), uint32(0x1a2b3c4d), uint16(1), uint16(0), sl, uint32(28))
+			b.Write(body.Bytes())
 		}
-		ifid := uint32(0)
-		if decoy == 1 {
-			w(uint32(1), uint32(20), other, uint16(0), uint32(262144), uint32(20))
-			ifid = 1
-		}
-		w(uint32(1), uint32(20), uint16(lt), uint16(0), uint32(262144), uint32(20))
-		if decoy == 2 {
-			w(uint32(1), uint32(20), other, uint16(0), uint32(262144), uint32(20))
-		}
-		for i, f := range frames {
-			pad := (4 - len(f)%4) % 4
-			tl := uint32(32 + len(f) + pad)
-			w(uint32(6), tl, ifid, uint32(0x0005f000), uint32(i*1000), uint32(len(f)), uint32(len(f)))
-			b.Write(f)
-			b.Write(make([]byte, pad))
-			w(tl)
+		if split > 0 && split < len(frames) {
+			section(frames[:split], 0, true)
+			section(frames[split:], split, decoy == 1) // the last section: either form
+		} else {
+			section(frames, 0, false)
 		}
 	default:
 		kit.Fatalf("format %q", format)
@@ -655,7 +677,7 @@ func observe(h *History, format, link string, wseed int64, big bool) (Obs, []int
 		bo = binary.BigEndian
 	}
 	frames := w.frames(h, rng, link, bo)
-	file := captureFile(format, link, frames, rng.Intn(3))
+	file := captureFile(format, link, frames, rng.Intn(3), h.Split)
 	conns, reasm, errs := runFq(format, file)
 	obs := Obs{Conns: []ObsConn{}, Reasm: []int{}}
 	for _, rc := range conns {
@@ -858,6 +880,23 @@ func randomHistory(rng *rand.Rand, big bool) *History {
 		}
 	}
 	h.Wire = wire
+	// a capture in two sections (pcapng only; ignored by the other containers): connections are independent, so the packets of the
+	// first half of the connections can be moved in front of the others; every connection then lies inside one section
+	if nc >= 2 && rng.Intn(3) == 0 {
+		var first, rest []Pkt
+		for _, p := range wire {
+			if p.C <= nc/2 {
+				first = append(first, p)
+			} else {
+				rest = append(rest, p)
+			}
+		}
+		if len(first) > 0 && len(rest) > 0 {
+			h.Wire = append(first, rest...)
+			h.Split = len(first)
+			h.Swaps = nil
+		}
+	}
 	return h
 }
 
@@ -908,7 +947,7 @@ func main() {
 			f, l := fmtNames[k%len(fmtNames)], linkNames[k/len(fmtNames)]
 			ws := seed*7000003 + int64(i)
 			obs, coinc, errs, nb, _ := observe(h, f, l, ws, big)
-			out.Emit(Event{ID: i, Src: "rand", Fmt: f, Link: l, WSeed: ws, Big: big, Many: many, Conns: h.Conns, Wire: h.Wire, Omits: nz(h.Omits), Swaps: nzi(h.Swaps), Obs: obs, Coinc: coinc, Err: errs, Bytes: nb})
+			out.Emit(Event{ID: i, Src: "rand", Fmt: f, Link: l, WSeed: ws, Big: big, Many: many, Split: h.Split, Conns: h.Conns, Wire: h.Wire, Omits: nz(h.Omits), Swaps: nzi(h.Swaps), Obs: obs, Coinc: coinc, Err: errs, Bytes: nb})
 		}
 		out.Close()
 	case "again": // re-run recorded events: c19 again <events.ndjson> <events-out.ndjson>
@@ -916,7 +955,7 @@ func main() {
 		kit.Cases(os.Args[2], func(_ int, raw []byte) {
 			var e Event
 			kit.Unmarshal(raw, &e)
-			h := History{Conns: e.Conns, Wire: e.Wire}
+			h := History{Conns: e.Conns, Wire: e.Wire, Split: e.Split}
 			many = e.Many
 			obs, coinc, errs, n, _ := observe(&h, e.Fmt, e.Link, e.WSeed, e.Big)
 			e.Obs, e.Coinc, e.Err, e.Bytes = obs, coinc, errs, n
@@ -931,7 +970,7 @@ func main() {
 		}
 		var e Event
 		kit.Unmarshal(raw, &e)
-		h := History{Conns: e.Conns, Wire: e.Wire}
+		h := History{Conns: e.Conns, Wire: e.Wire, Split: e.Split}
 		many = e.Many
 		obs, coinc, errs, n, file := observe(&h, e.Fmt, e.Link, e.WSeed, e.Big)
 		e.Obs, e.Coinc, e.Err, e.Bytes = obs, coinc, errs, n
